@@ -329,6 +329,17 @@ def helper_defs():
         Union('Un8', [(1, 'u64', 'a'), (2, 'u8', 'b'), (3, 'Fx2', 'c')]),             # size 16 align 8
         Struct('Fx12', [Member('a', 'u32'), Member('b', 'u32'), Member('c', 'u32')]),  # size 12 align 4
         Union('Un12', [(1, 'u64', 'a'), (2, 'Fx12', 'b')]),                           # size 24 align 8: largest arm 4-aligned
+        # a chain nested ten levels deep (struct / array element / optional / union arm in turn)
+        Struct('Deep1', [Member('v', 'u8'), Member('e', 'En')]),
+        Struct('Deep2', [Member('d', 'Deep1'), Member('v', 'u16')]),
+        Struct('Deep3', [Member('d', 'Deep2', FIXED, 2)]),
+        Union('Deep4', [(1, 'Deep3', 'd'), (2, 'u8', 'v')]),
+        Struct('Deep5', [Member('v', 'u8'), Member('d', 'Deep4')]),
+        Struct('Deep6', [Member('d', 'Deep5', OPTIONAL)]),
+        Struct('Deep7', [Member('d', 'Deep6'), Member('b', 'byte', FIXED, 2)]),
+        Struct('Deep8', [Member('d', 'Deep7', LIMITED, 2)]),
+        Struct('Deep9', [Member('d', 'Deep8')]),
+        Struct('Deep10', [Member('v', 'u32'), Member('d', 'Deep9')]),
         Typedef('TU64', 'u64'), Typedef('TTU64', 'TU64'), Typedef('TFx8', 'Fx8'), Typedef('TTFx8', 'TFx8'),
         Typedef('TDy4', 'Dy4'),                                                       # alias of a dynamic struct
         Typedef('TFx2', 'Fx2'),                                                       # alias of a fixed struct
@@ -395,6 +406,8 @@ EXTRA = [
     ('Un8*', lambda n: [Member(n, 'Un8', OPTIONAL)]),
     ('Un12*', lambda n: [Member(n, 'Un12', OPTIONAL)]),
     ('FxO*', lambda n: [Member(n, 'FxO', OPTIONAL)]),
+    ('Deep10', lambda n: [Member(n, 'Deep10')]),
+    ('Deep10<>', lambda n: [Member(n, 'Deep10', DYNAMIC)]),
     ('TTU64', lambda n: [Member(n, 'TTU64')]),
     ('TTU64[2]', lambda n: [Member(n, 'TTU64', FIXED, 2)]),
 ]
